@@ -786,10 +786,12 @@ func c19SharedEvent(c *mon.Ctx, r *gen.Rand) {
 				"untrusted":        impl.NewEventFromUntrustedJSON,
 				"trusted":          func(b []byte) (gmsl.PDU, error) { return impl.NewEventFromTrustedJSON(b, false) },
 				"trusted-redacted": func(b []byte) (gmsl.PDU, error) { return impl.NewEventFromTrustedJSON(b, true) },
+				// a caller that did not store the event ID alongside the event
+				"trusted-with-empty-event-id": func(b []byte) (gmsl.PDU, error) { return impl.NewEventFromTrustedJSONWithEventID("", b, false) },
 			}
 			for _, form := range formNames {
 				text := forms[form]
-				for _, pname := range []string{"untrusted", "trusted", "trusted-redacted"} {
+				for _, pname := range []string{"untrusted", "trusted", "trusted-redacted", "trusted-with-empty-event-id"} {
 					parse := parsers[pname]
 					c.Case("shared-event:"+string(ver)+":"+form+":"+pname, map[string]any{"version": ver, "form": form, "parser": pname, "event": string(text)}, func() {
 						ref1, err := parse(text)
